@@ -135,53 +135,18 @@ def r1_pairing(ctx, rep):
 
 
 def loop_relations(py, cls: str):
-    """[(relation, orientation, guarded, node) ...] for the add_node of a graph class."""
-    fn = py.classes[cls].methods.get("add_node")
-    if fn is None:
-        raise AnalysisError(f"{cls}.add_node not found")
-    fn = py.ifunc(f"{cls}.add_node")      # canonical form: a shared helper that queues the neighbours is part of each add_node
+    """[(relation, orientation, edge call, top-level statement) ...] for the add_node of a graph class - from the hop summary
+    (sa/graphsum.py), i.e. independent of how the loops over the relations are written"""
+    from ..graphsum import HopSummary
+    hs = HopSummary(py, cls)
     out = []
-
-    def rel_of_iter(it: ast.AST) -> Optional[str]:
-        e = it
-        if isinstance(e, ast.Call) and call_name(e) == "sorted" and e.args:
-            e = e.args[0]
-        if isinstance(e, ast.Call) and isinstance(e.func, ast.Attribute) and e.func.attr in ("keys", "items"):
-            e = e.func.value
-        if isinstance(e, ast.Name):      # a relation hoisted into a local: `users = getattr(node, "used_by", [])`
-            vals = [v for _t, v in astq.assignments(fn, e.id) if v is not None]
-            if len(vals) == 1:
-                return rel_of_iter(vals[0])
-        if isinstance(e, ast.Call) and call_name(e) == "getattr" and len(e.args) >= 2 and \
-                ast.unparse(e.args[0]) == "node" and isinstance(e.args[1], ast.Constant):
-            return e.args[1].value
-        if isinstance(e, ast.Attribute) and ast.unparse(e.value) == "node":
-            return e.attr
-        return None
-
-    def edges_in(stmts, x: str, rel: str, top):
-        for n in ast.walk(ast.Module(body=list(stmts), type_ignores=[])):
-            if isinstance(n, ast.Call) and call_name(n) == "hop_edges.append" and n.args and \
-                    isinstance(n.args[0], ast.Call) and len(n.args[0].args) >= 2:
-                a, b = ast.unparse(n.args[0].args[0]), ast.unparse(n.args[0].args[1])
-                orient = "out" if (a, b) == ("node", x) else ("in" if (a, b) == (x, "node") else f"{a}->{b}")
-                out.append((rel, orient, n, top))
-
-    for st in fn.body:
-        if isinstance(st, ast.For) and isinstance(st.target, ast.Name):
-            rel = rel_of_iter(st.iter)
-            if rel is None:
-                raise AnalysisError(f"{cls}.add_node: loop over `{ast.unparse(st.iter)}` not understood")
-            edges_in(st.body, st.target.id, rel, st)
-        elif isinstance(st, ast.If):
-            t = ast.unparse(st.test)
-            if "node.ancestor" in t or "'ancestor'" in t:
-                edges_in(st.body, "node.ancestor", "ancestor", st)
-            elif "isinstance(node" in t:
-                continue
-            else:
-                edges_in(st.body, "?", "?", st)
-    return fn, out
+    if not hs.edges:
+        raise AnalysisError(f"{cls}.add_node: no edge construction found")
+    for e in hs.edges:
+        if e.rel == "?":
+            raise AnalysisError(f"{cls}.add_node: where the endpoint `{e.other}` of `{ast.unparse(e.node)[:60]}` comes from was not understood")
+        out.append((e.rel, e.orient, e.node, e.top))
+    return hs.fn, out
 
 
 def r2_mirror(ctx, rep):
@@ -242,60 +207,30 @@ def graph_classes(py) -> List[str]:
 
 def r3_edges(ctx, rep):
     py = ctx.py
+    from ..graphsum import HopSummary
     for cls in graph_classes(py):
-        fn = py.ifunc(f"{cls}.add_node")
-        for n in ast.walk(fn):
-            if not (isinstance(n, ast.Call) and call_name(n) == "hop_edges.append"):
-                continue
-            e = n.args[0]
-            if not (isinstance(e, ast.Call) and len(e.args) >= 2):
-                raise AnalysisError(f"{cls}.add_node: edge form not understood")
-            ends = [ast.unparse(e.args[0]), ast.unparse(e.args[1])]
-            # enclosing statements up to the function
-            chain = []
-            p = n
-            while p is not fn:
-                p = py.parents[p]
-                chain.append(p)
-            loop = next((c for c in chain if isinstance(c, ast.For)), None)
-            scope = loop.body if loop is not None else next(
-                (c.body for c in chain if isinstance(c, ast.If) and c in fn.body), fn.body)
-            added = {ast.unparse(c.args[0]) for s in scope for c in ast.walk(s)
-                     if isinstance(c, ast.Call) and call_name(c) == "hop_nodes.add" and c.args}
-            other = [x for x in ends if x != "node"]
-            ok_nodes = "node" in ends and all(x in added for x in other)
-            guards = [ast.unparse(c.test) for c in chain if isinstance(c, ast.If)
-                      and (loop is None or c is not loop) and c not in fn.body]
-            bad_guard = [g for g in guards if "self.added" in g or "hop_nodes" in g]
+        hs = HopSummary(py, cls)
+        queued = {a.rel for a in hs.adds}
+        for e in hs.edges:
+            ends = ("node", e.other) if e.orient == "out" else (e.other, "node") if e.orient == "in" else tuple(e.orient.split("->"))
+            ok_nodes = e.orient in ("in", "out") and e.rel in queued
+            bad_guard = [g for g in e.conds if "self.added" in g or hs.nodes_p in g]
             ok = ok_nodes and not bad_guard
-            rep.ob(f"{cls}.add_node edge {ends[0]}->{ends[1]}", ok,
-                   ("both endpoints are `node` or a neighbour added to hop_nodes in the same iteration; the edge "
+            rep.ob(f"{cls}.add_node edge {ends[0]}->{ends[1]} ({e.rel})", ok,
+                   ("both endpoints are `node` or a neighbour that is queued into the hop from the same relation; the edge "
                     "is unconditional" if ok else
                     (f"edge is only drawn under `{bad_guard[0]}`: an edge to a node already in the graph is dropped"
-                     if bad_guard else f"endpoint(s) {other} are not added to hop_nodes in the same iteration")),
-                   py.nloc(n))
-    # a neighbour joins the hop only if it is not in the graph yet: the node limit counts len(hop) + len(self.added), so a
-    # node that is already drawn must not be counted again (sibling agreement of the `not in self.added` guard)
-    for cls in graph_classes(py):
-        fn = py.ifunc(f"{cls}.add_node")
-        for n in ast.walk(fn):
-            if not (isinstance(n, ast.Call) and call_name(n) == "hop_nodes.add" and n.args):
-                continue
-            x = ast.unparse(n.args[0])
-            guards = []
-            p = n
-            while p is not fn:
-                p = py.parents[p]
-                if isinstance(p, ast.If):
-                    guards += [c for c in ast.walk(p.test) if isinstance(c, ast.Compare) and len(c.ops) == 1
-                               and isinstance(c.ops[0], ast.NotIn) and ast.unparse(c.left) == x]
-            ok = any(ast.unparse(g.comparators[0]) == "self.added" for g in guards)
-            rep.ob(f"{cls}.add_node: `{x}` joins the hop only if it is not drawn yet", ok,
-                   "guarded by `not in self.added`" if ok else
-                   f"`hop_nodes.add({x})` is {'guarded by `' + ast.unparse(guards[0]) + '`' if guards else 'unguarded'}, not by "
-                   f"`{x} not in self.added` as in the sibling graph classes: nodes that are already in the graph are counted again "
+                     if bad_guard else f"members of `{e.rel}` get an edge but are not queued into hop_nodes (queued: {sorted(queued)})")),
+                   py.nloc(e.node))
+        # a neighbour joins the hop only if it is not in the graph yet: the node limit counts len(hop) + len(self.added), so a
+        # node that is already drawn must not be counted again (sibling agreement of the `not in self.added` guard)
+        for a in hs.adds:
+            rep.ob(f"{cls}.add_node: `{a.var}` joins the hop only if it is not drawn yet", a.guarded,
+                   "guarded by `not in self.added`" if a.guarded else
+                   f"`{ast.unparse(a.node)[:50]}` is {'guarded by `' + a.guards[0] + '`' if a.guards else 'unguarded'}, not by "
+                   f"`not in self.added` as in the sibling graph classes: nodes that are already in the graph are counted again "
                    f"against graph_maxnodes, so the hop is rejected and every edge of the graph is dropped although the nodes fit",
-                   py.nloc(n), nontrivial=not ok)
+                   py.nloc(a.node), nontrivial=not a.guarded)
     fn = py.func("FortranGraph.add_to_graph")
     body = [s for s in fn.body if not isinstance(s, ast.Expr)]
     emits_n = [s for s in body if isinstance(s, ast.For) and "self.dot.node" in ast.unparse(s)]
@@ -384,11 +319,23 @@ def r5_sorted_emission(ctx, rep):
                 f"`for ... in {t}` iterates a set (hash order, PYTHONHASHSEED dependent) while emitting "
                 f"nodes/edges: edge order in the graph source differs between runs"), py.nloc(st))
 
+    from ..graphsum import HopSummary
     for cls in graph_classes(py):
-        fn = py.ifunc(f"{cls}.add_node")
-        for st in ast.walk(fn):
-            if isinstance(st, ast.For):
-                check_loop(cls, fn, st)
+        hs = HopSummary(py, cls)
+        seen_rel = set()
+        for e in hs.edges:
+            for rel in e.rel.split("|"):
+                if (rel, e.sorted) in seen_rel:
+                    continue
+                seen_rel.add((rel, e.sorted))
+                if rel not in sets:
+                    rep.ob(f"{cls}.add_node loop over {rel}", True, "iterates an insertion-ordered container / a single neighbour",
+                           py.nloc(e.node), nontrivial=False)
+                    continue
+                rep.ob(f"{cls}.add_node loop over {rel}", e.sorted,
+                       (f"set-typed `{rel}` is iterated through sorted()" if e.sorted else
+                        f"the edges for `{rel}` are produced while iterating a set (hash order, PYTHONHASHSEED dependent): edge "
+                        f"order in the graph source differs between runs"), py.nloc(e.node))
     for m in ("add_nodes", "add_to_graph"):
         fn = py.func(f"FortranGraph.{m}")
         for st in ast.walk(fn):
@@ -440,6 +387,13 @@ def r7_alias(ctx, rep):
         raise AnalysisError("no `self.a = self.b` list alias found in the entity classes (FortranType.correlate: local_variables)")
 
 
+def r9_settings_inherited(ctx, rep):
+    """graph settings of an entity are inherited field by field from the project's settings of the same name (generic rule
+    `keyword_copy_agreement`)"""
+    from . import common
+    common.keyword_copy_agreement(ctx, rep, modules=("settings",))
+
+
 RULES = [
     RuleSpec("C13.R6", r6_project_graph_roots, "project-wide graph roots; file dependencies use the recursive closure", floor=8),
     RuleSpec("C13.R1", r1_pairing, "forward/inverse adjacency pairing at node creation", floor=20),
@@ -449,4 +403,5 @@ RULES = [
     RuleSpec("C13.R5", r5_sorted_emission, "sorted iteration wherever nodes/edges are emitted", floor=10),
     RuleSpec("C13.R8", r8_project_graph_orientation, "project-wide graphs are oriented like the per-entity graphs", floor=4),
     RuleSpec("C13.R7", r7_alias, "a saved alias of a component list is not mutated in place", floor=1),
+    RuleSpec("C13.R9", r9_settings_inherited, "per-entity graph limits are inherited from their project-wide namesakes", floor=3),
 ]
